@@ -279,6 +279,33 @@ def r07_4(ck: Check) -> None:
     ck.expect_count("R07.4", "DataMessage construction sites", sites, 3)
 
 
+def r07_10(ck: Check, rule: str = "R07.10") -> None:
+    """the writers of the wire messages write several fields as raw bytes of a length only convention fixes (ids, tags); the mirror rule
+    R07.1 cannot compare those with the reader's fixed widths. What the reader consumes is therefore compared, field by field, with the
+    layout recorded on the pinned tree: a reader that takes 31 bytes for an id leaves the 32nd in the stream, the message does not
+    survive the round trip and what an unmodified peer sends is mis-framed."""
+    import json
+    import os
+    from ..engine.report import VERIF_ROOT
+    from .c18 import message_classes, wire_signature
+    ref = json.load(open(os.path.join(VERIF_ROOT, "reference", "wire_format.json"))).get("messages", {})
+    got = json.loads(json.dumps(wire_signature(ck, message_classes(ck))))
+    n = 0
+    for cls, want in sorted(ref.items()):
+        n += 1
+        construct = "%s: the reader consumes the recorded layout" % cls
+        have = got.get(cls)
+        if have is None:
+            ck.violated(rule, construct, "the class or its decoder is gone", "")
+        elif have.get("reader") != want.get("reader") or have.get("union") != want.get("union") or have.get("tag") != want.get("tag"):
+            ck.violated(rule, construct, "recorded %s, the tree reads %s — bytes written by this node's own encoder (and by every unmodified peer) "
+                        "are split differently on the way in" % (json.dumps({k: want.get(k) for k in ("tag", "reader", "union") if want.get(k)})[:200],
+                                                                 json.dumps({k: have.get(k) for k in ("tag", "reader", "union") if have.get(k)})[:200]), "")
+        else:
+            ck.ok(rule, construct, json.dumps(want.get("reader") or want.get("union"))[:100], "")
+    ck.expect_count(rule, "message classes", n, 12)
+
+
 def r07_5(ck: Check) -> None:
     ex = extractor(ck)
     for q, want_end, what in ((DT + "Transaction", "all", "the whole transaction"), (DT + "Block", "header", "exactly the header")):
@@ -573,6 +600,7 @@ def check(ck: Check) -> None:
     ck.run("R07.5", "id provenance", lambda: r07_5(ck))
     ck.run("R07.6", "single accepted encoding of the variable-length integer", lambda: r07_6(ck))
     ck.run("R07.8", "byte-level entry points are the generic wrappers", lambda: r07_8(ck))
+    ck.run("R07.10", "wire messages are read with the recorded layout", lambda: r07_10(ck))
     ck.run("R07.9", "id-carrying objects are constructed, never copied", lambda: r07_9(ck))
     from .c08 import r08_3, r08_7
     ck.run("R07.5b", "ids handed out by the store reader belong to the content they are attached to", lambda: (r08_3(ck), r08_7(ck, "R07.5")))
